@@ -439,6 +439,10 @@ func (cc *ClampedCubic) Fit(xs, ys []float64) error {
 	// Add boundary conditions y′′(left) = y′′(right) = 0:
 	// Condition Y′(left end) = 0:
 	dxL := xs[1] - xs[0]
+	if dxL <= 0 {
+		// With two points makeCubicSplineSecondDerivativeEquations has nothing to check.
+		panic(xsNotStrictlyIncreasing)
+	}
 	b.SetVec(0, (ys[1]-ys[0])/dxL)
 	a.SetBand(0, 0, dxL/3)
 	a.SetBand(0, 1, dxL/6)
